@@ -79,7 +79,12 @@
   --     9 keys were run through the model, driver op `idc_star_trace`, harness/props/c08_termsearch.py).
   --     OPEN (2): inputs with a SELF-INTERVENED key (X_x) among outcomes and conditions that share a variable name: a self-intervened
   --     copy has no noise and hence no edge to the other copies, rule 2 can accept a condition named like a self-intervened outcome,
-  --     and the measure above need not decrease (it does not on about half of such random inputs); no other measure is known.
+  --     and the measure above need not decrease (it does not on about half of such random inputs).  Probable route: count the
+  --     conditions by COLOURED name (not-self-intervened conditions named like no not-self-intervened outcome, plus self-intervened
+  --     conditions that are not outcomes themselves: the exchange removes exactly one of these, a self-intervened key has no ancestor
+  --     and is never re-subscripted); what breaks is that the re-association (which goes by plain name) can move a not-self-intervened
+  --     key to the outcomes because a SELF-INTERVENED outcome of that name was renamed — renamed to a node that `merge_pw` prefers, so
+  --     the multiset of self-intervened outcome keys decreases in the preference order; not formalised.
 -/
 import Y0.Lemmas.CfIdcStar
 import Y0.Lemmas.CfIdcTerm
